@@ -38,8 +38,8 @@ ASSUMPTIONS = [
     "offsets derived independently from the zone spelling; awareness per the statement's table",
     "date theory (symx.dates) stands for CPython datetime/calendar; symbolic regex stands for re/regex on templates",
 ]
-ZONES = ["UTC", "+0530", "-0800", "PST", "AEST", "UTC+03:00", "+1245", "local"]
-_ABBR = {"PST": -8 * 3600, "AEST": 10 * 3600, "EST": -5 * 3600}
+ZONES = ["UTC", "+0530", "-0800", "PST", "AEST", "UTC+03:00", "+1245", "local", "-0330", "aest", "UTC-09:30"]
+_ABBR = {"PST": -8 * 3600, "AEST": 10 * 3600, "EST": -5 * 3600, "aest": 10 * 3600}
 AWARE = [None, True, False]
 
 
